@@ -477,7 +477,7 @@ class DictGen:
         elif m == "nsp" and self.cfg.get("namespace_keys"):
             # the section of the program's option namespace: declared members, a sub-section, and an entry nobody declared
             sec = dict(o.get("NSP") or {}) if isinstance(o.get("NSP"), dict) else {}
-            which = r.choice(["P", "REQ", "AU", "DD", "EXTRA", "SUB", "drop"])
+            which = r.choice(["P", "REQ", "AU", "DD", "EXTRA", "SUB", "_HID", "_HID", "drop"])
             if which == "drop":
                 o.pop("NSP", None)
             else:
